@@ -306,15 +306,9 @@ def stepQuery (wh lim off parts : String) (sel : List String) (keys : List Strin
             || !(adjacentTie le ((isort le p.2).take (climit + 1)))
         -- classifiers of the open findings (known_findings.jsonl)
         let nanNull := ((List.range keys.length).map fun i => items.map fun it => it.1.getD i .null).any nanAndNull
-        -- a key column that is entirely NULL in one partition (typed Null there, cast to Val in the merge) next to
-        -- NULLs of a typed partition (in-band sentinel): the relative order of those tied NULL rows is not modelled
-        let keyCols := (keys.flatMap fun k => exprCols k.expr).eraseDups
-        let partRows := splitParts parts rows
-        let nullTyped := decide (partRows.length > 1) && keyCols.any fun c =>
-          partRows.any fun p => !p.2.isEmpty && p.2.all fun r => r.getD c .null == .null
         let known := if nanNull then "\tC05-nan-null-tie" else ""
         let model : String :=
-          if !determined || nanNull || nullTyped then "?" else
+          if !determined || nanNull then "?" else
           match leftTree leaves with
           | none => "rows:[]"
           | some t =>
